@@ -1,18 +1,24 @@
 ---------------------------- MODULE GenLifecycle ----------------------------
 (* External-operation histories for the lifecycle drivers (C06, C07): operations on two   *)
 (* inputs and their outputs by an external actor, interleaved with arming / releasing the *)
-(* transform gate (so that operations land while a reconcile is in flight) and transient   *)
-(* transform failures.  Operations that do not apply to the real state are skipped by the  *)
-(* driver.                                                                                *)
+(* transform gate (so that operations land while a reconcile is in flight), transient      *)
+(* transform failures, and - holdw / stepw / freew - parking the controller's own store    *)
+(* writes and releasing them one at a time, so that external operations land between any   *)
+(* two writes of a reconcile.  Operations that do not apply to the real state are skipped  *)
+(* by the driver.                                                                          *)
 EXTENDS Integers, Sequences, TLC, Json, IOUtils
-VARIABLES hist, done
+VARIABLES hist, done, held
 GenDepth == IF "GEN_DEPTH" \in DOMAIN IOEnv THEN atoi(IOEnv.GEN_DEPTH) ELSE 30
-Ops == <<"create", "create", "update", "update", "td", "td", "destroy", "destroy", "addX", "remX", "addF", "remF",
-         "arm", "release", "release", "failnext", "wait">>
-Init == hist = <<>> /\ done = FALSE
-Step == \E op \in {Ops[RandomElement(1..Len(Ops))]}, id \in {RandomElement({1, 1, 2})}, v \in {RandomElement({1, 2, 3})} :
-           hist' = Append(hist, [c |-> op, id |-> id, v |-> v]) /\ UNCHANGED done
-Finish == ~done /\ PrintT(<<"BEH", ToJson(hist)>>) /\ done' = TRUE /\ UNCHANGED hist
+ExtOps == <<"create", "create", "update", "td", "td", "destroy", "destroy", "addX", "remX", "addF", "addF", "remF">>
+FreeOps == ExtOps \o <<"arm", "release", "release", "failnext", "wait", "holdw", "holdw">>
+HeldOps == <<"stepw", "stepw", "stepw", "stepw", "stepw", "freew">> \o ExtOps
+Init == hist = <<>> /\ done = FALSE /\ held = FALSE
+Step == \E op \in {IF held THEN HeldOps[RandomElement(1..Len(HeldOps))] ELSE FreeOps[RandomElement(1..Len(FreeOps))]},
+           id \in {RandomElement({1, 1, 2})}, v \in {RandomElement({1, 2, 3})} :
+           /\ hist' = Append(hist, [c |-> op, id |-> id, v |-> v])
+           /\ held' = IF op = "holdw" THEN TRUE ELSE IF op = "freew" THEN FALSE ELSE held
+           /\ UNCHANGED done
+Finish == ~done /\ PrintT(<<"BEH", ToJson(hist)>>) /\ done' = TRUE /\ UNCHANGED <<hist, held>>
 Next == IF Len(hist) >= GenDepth THEN Finish ELSE ~done /\ Step
-Spec == Init /\ [][Next]_<<hist, done>>
+Spec == Init /\ [][Next]_<<hist, done, held>>
 =============================================================================
